@@ -96,7 +96,7 @@ def main():
     t0 = time.time()
     versions = a.versions.split(',')
     alpha = a.alpha if a.alpha != 'none' else None
-    chunks = scope.plan(alpha, a.n, a.rnd, a.tpl, a.seed, a.repo, files=not a.no_files)
+    chunks = scope.plan(alpha, a.n, a.rnd, a.tpl, a.seed, a.repo, files=not a.no_files, extra=a.extra)
     rv = a.rnd_versions.split(',') if a.rnd_versions else versions
     jobs = []
     for c in chunks:
